@@ -68,7 +68,11 @@ def build_instance(case, oracle, order, probe="interior", opts=None, with_T=True
     kw = dict(verbose=False, Lambda=float(case["lam"]), clear_cache_every_nbr_calc=10 ** 6)
     kw.update({k: v for k, v in (opts or {}).items() if not k.startswith("_")})
     rel = core.AurelCore(fd, **kw)
-    for k, v in F.inputs().items():
+    inputs = F.inputs()
+    if (opts or {}).get("_components"):
+        # the presentation the Einstein Toolkit reader produces: every tensor handed over by its scalar components
+        inputs = to_components(inputs)
+    for k, v in inputs.items():
         rel.data[k] = v
     if with_T and oracle is not None and not (opts or {}).get("_noT"):
         kt = as_array(oracle["kappaT"], "kappaT")
@@ -81,6 +85,21 @@ def build_instance(case, oracle, order, probe="interior", opts=None, with_T=True
         rel.data["rho0"] = np.ones(fd.x.shape)
     rel.freeze_data()
     return rel, idx, F
+
+
+def to_components(inputs):
+    out = {}
+    ax = "xyz"
+    for k, v in inputs.items():
+        if k == "gammadown3":
+            out.update({"g" + ax[i] + ax[j]: v[i, j] for i in range(3) for j in range(i, 3)})
+        elif k == "Kdown3":
+            out.update({"k" + ax[i] + ax[j]: v[i, j] for i in range(3) for j in range(i, 3)})
+        elif k in ("betaup3", "dtbetaup3"):
+            out.update({k[:-3] + ax[i]: v[i] for i in range(3)})
+        else:
+            out[k] = v
+    return out
 
 
 def compare_keys(job, refine=1):
@@ -97,7 +116,7 @@ def compare_keys(job, refine=1):
     # the harness-side K field must agree with the oracle's K at the probe (self-check of the field builder)
     kref = as_array(oracle["Kdown3"], "Kdown3")
     if kref is not None:
-        kin = rel.data["Kdown3"][(...,) + idx]
+        kin = (rel.data["Kdown3"] if "Kdown3" in rel.data else rel["Kdown3"])[(...,) + idx]
         if np.abs(kin - kref).max() > 1e-10 * max(1.0, np.abs(kref).max()):
             return [{"key": "*", "error": "harness K field disagrees with the oracle K at the probe (machinery)"}]
     for p in (opts or {}).get("_pre", []):
@@ -145,7 +164,34 @@ def compare_keys(job, refine=1):
                     m["maxerr_half_spacing"] = f["maxerr"]
                 kept.append(m)
             out = kept
+            # At a boundary probe the one-sided stencils (and derivatives of derivatives across the change of stencil) reach
+            # their asymptotic order later: what still stands is examined once more at a quarter of the spacing and accepted
+            # when the error keeps shrinking, over the two halvings, at an order not more than 2.5 below the nominal one.
+            still = [k for k in keys if k[0] in {m["key"] for m in out if "maxerr_half_spacing" in m}]
+            if still and probe != "interior":
+                finest = {m["key"]: m for m in compare_keys((case, oracle, order, probe, still, opts), refine=4)}
+                kept = []
+                for m in out:
+                    f = finest.get(m["key"])
+                    e4 = None if f is None else f.get("maxerr")
+                    if "maxerr_half_spacing" in m and (f is None or (e4 is not None and e4 < m["maxerr_half_spacing"]
+                                                                     and e4 <= m["maxerr"] / max(3.0, 2 ** (2 * (order - 2.5))))):
+                        continue
+                    if e4 is not None:
+                        m["maxerr_quarter_spacing"] = e4
+                    kept.append(m)
+                out = kept
     return out
+
+
+def shrinks_under_refinement(err_at, order, tol):
+    """err_at(refine) -> error of an identity evaluated on the probe grid with spacing h / refine.  True when the error
+    is below tol, or is discretisation error (shrinks by 2^(order - 1.5) when the spacing is halved)."""
+    e1 = err_at(1)
+    if e1 <= tol:
+        return True, [e1]
+    e2 = err_at(2)
+    return e2 <= e1 / 2 ** (order - 1.5), [e1, e2]
 
 
 def _test_fields(F):
